@@ -173,3 +173,5 @@ def check(ctx):
     _check_own(ctx)
     from .engine import import_rules
     import_rules(ctx, "c01", {"lookup-by-full-key", "lookup-result"})
+    # keys come back from iteration as stored only if the key loader reads each field where the layout puts it
+    import_rules(ctx, "c05", {"field-position"})
